@@ -585,7 +585,7 @@ fn single_feature(a: &A) -> &'static str {
 // ------------------------------------------------------------------------------------
 // enumeration
 
-const NAMES: [&str; 11] = ["br", "BR", "Br", "p", "P", "span", "div", "pre", "script", "style", "foo"];
+const NAMES: [&str; 13] = ["br", "BR", "Br", "bR", "p", "P", "span", "div", "pre", "script", "sCRIPT", "style", "foo"];
 const NSS: [&str; 5] = ["", XHTML, MATHML, SVG, FOREIGN];
 const TEXT2: [&str; 7] = ["<", "&", "\"", "'", ">", "\u{a0}", "x"];
 
